@@ -20,7 +20,7 @@
 From Coq Require Import List NArith ZArith Bool String.
 From stdpp Require Import pmap.
 From OV Require Import Base.Bytes Base.Tree Model.Heap
-  Proofs.HeapIds Proofs.HeapTree Proofs.HeapOps Proofs.HeapRep Proofs.Heap Proofs.HeapReader.
+  Proofs.HeapIds Proofs.HeapTree Proofs.HeapOps Proofs.HeapRep Proofs.Heap Proofs.HeapReader Proofs.HeapCheck.
 Import ListNotations.
 
 (* (1) Refinement: an operation whose API precondition holds never panics, never runs out of
@@ -48,6 +48,12 @@ Proof. exact run2_total. Qed.
 Theorem abs_reads_forest : forall caching s F acq t,
   reachable caching s F acq -> t ∈ F -> abs s (root t) = Some t.
 Proof. exact abs_reads_forest_pf. Qed.
+
+(* The Boolean checker that the correspondence evaluates on every observed state and on every
+   tree handed out by a reader decides exactly the representation predicate of the theorems. *)
+Theorem checker_decides_tree_ok : forall h t par prev next,
+  tree_ok_b h par prev next t = true <-> tree_ok h par prev next t.
+Proof. exact tree_ok_b_spec. Qed.
 
 (* (2) In every reachable state the pool holds no address twice, no pooled address is live, and
    no link of a live node leads out of the live forest (so none leads to a pooled node). *)
